@@ -914,6 +914,15 @@ def near_field_layout(ctx):
                     col_ok = any(col_want is not None and _safe_eq(_poly_of(s.vnode, defs), col_want) for s in deep if s.op == "=")
                     ptr = [s for s in S if len(s.loops) == 3 and s.loops == (lT, lP, lC) and isinstance(s.tnode, ast.Subscript) and s.op == "="]
                     row_ok = len(ptr) == 1 and row_want is not None and _poly_of(ptr[0].tnode.slice, defs).eq(row_want)
+                # every target element / point / component and every neighbour / source point is processed: no iteration of
+                # the five loops is skipped or cut short (the neighbour list of an element always contains the element itself,
+                # whose own contribution the singular part integrates as well)
+                skips = [n for n in ast.walk(lT) if isinstance(n, (ast.Continue, ast.Break, ast.Return))]
+                guarded = [s for s in deep if s.guards]
+                if skips or guarded:
+                    r.fail(fname + " (all pairs processed)", FH, fname, (skips[0].lineno if skips else guarded[0].node.lineno), "near-field loops of " + fname,
+                           "the near-field correction %s: for those target elements the point-source contribution of the element itself and of its neighbours stays in the FMM result although the singular part integrates the same pairs" % (
+                               "leaves an iteration of its loops early (`%s` at line %d)" % (type(skips[0]).__name__.lower(), skips[0].lineno) if skips else "accumulates only under `%s`" % (guarded[0].guards[-1][0][:60],)))
                 ok = four and same_np and set_ok and lay_ok and row_ok and col_ok
                 why = "4 components: %s; same point count for targets and sources: %s; source elements = sorted CSR neighbours of the target with matching count: %s; kernel output read at 4*(t*NS + j) + c: %s; rows 4*(np*target + t) + c: %s; columns np*source element + s: %s" % (
                     four, same_np, set_ok, lay_ok, row_ok, col_ok)
